@@ -101,10 +101,16 @@ def replay(col, item):
     # window of weights() must contain every entry TLC lists (chi-square computed exactly over the rationals)
     from collections import Counter
     for d, Dm in enumerate(DS[m]):
+        # ONE object per covariance, asked with growing x2_max: each call answers for the x2_max it is given
+        try:
+            b_shared = BMCI(y.copy(), x.copy(), Dm)
+        except Exception as ex:
+            col.violation("weights-raises-" + type(ex).__name__, {"abstract": {"db": db, "D": Dm.tolist()}, "observed": repr(ex)[:200]})
+            continue
         for q, x2 in enumerate(X2S):
             must = case["must"][d][q]
             try:
-                b = BMCI(y.copy(), x.copy(), Dm)
+                b = b_shared
                 i_l, i_u, _ = b.weights(yobs[0].copy(), x2)
                 kept = Counter((tuple(r), float(v)) for r, v in zip(np.asarray(b.y[i_l:i_u]).tolist(), np.asarray(b.x[i_l:i_u]).ravel().tolist()))
             except Exception as ex:
@@ -175,12 +181,14 @@ def replay(col, item):
     # every entry, so the spike-regime estimates are the same - for x2_max = 0 (exact matches on the window boundary) too
     offy = 2.0 ** 22
     for d, Dm in enumerate(DS[m]):
-        for x2 in (0.0, 0.5):
+        for x2, scale in ((0.0, 1.0), (0.5, 1.0), (0.0, 2.0 ** 23)):
+            # (scale: measurements in units 2^23 times smaller, i.e. numbers 2^23 times larger, covariance 2^46 times
+            #  larger: every chi-square is unchanged)
             exp = case["spike"]
             try:
-                b = BMCI(y.copy() + offy, x.copy(), Dm * 1e-6)
+                b = BMCI((y.copy() + offy) * scale, x.copy(), Dm * 1e-6 * scale * scale)
                 with np.errstate(all="ignore"):
-                    mean, std = b.predict(yobs.copy() + offy, x2_max=x2)
+                    mean, std = b.predict((yobs.copy() + offy) * scale, x2_max=x2)
             except Exception as ex:
                 col.violation("predict-raises-%s-channel-offset" % type(ex).__name__,
                               {"abstract": {"db": db, "y": case["y"], "D": Dm.tolist(), "channel_offset": offy}, "observed": repr(ex)[:200]})
